@@ -9,7 +9,13 @@
       before, and the registries observed before and after everything is dropped.
    op "reader_consistent"  [text]  ->  whether the statements of the parsed document form a consistent
       system (Model/ReaderConsistent.v: consistentb); read_pil never refuses such a document
-      (Proofs/ReaderSysJ.v), the implementation side answers whether read_pil accepted it. *)
+      (Proofs/ReaderSysJ.v), the implementation side answers whether read_pil accepted it.
+   op "reader_kept_consistent"  [text; ignore]  ->  the same for the statements that `ignore` leaves
+      (Proofs/ReaderSysN.v: read_pil(text, ignore = ig) is read_pil of those lines).
+   op "reader_session"  [text1; text2]  ->  whether text1 is a consistent system and every statement of text2,
+      read in the session that holds the result of text1, re-declares (same description; kernel statements may
+      set another concentration), is returned as it is or is new and admissible (Model/ReaderConsistent.v:
+      session_from); both reads then succeed and shared names map to the held objects (Proofs/ReaderSysU.v). *)
 From Coq Require Import String List NArith ZArith Bool Arith.
 From DSD Require Import Base.Str Base.Errors Base.Val Model.ComplexUtils Model.DispatchCU Model.RegStr
   Model.ReaderStr Model.PyNum Model.Peg Model.DispatchPeg Model.Heap Model.Registry Model.DispatchRegistry
@@ -134,6 +140,30 @@ Definition reader_consistent (text : pstr) : val :=
   | Err k => err k
   end.
 
+Definition reader_kept_consistent (text : pstr) (ignore : option (list pstr)) : val :=
+  match parse_lines text with
+  | Ok lines => match keep_lines ignore lines with
+                | Some kept => match decode_all kept with
+                               | Some (_, ss) => VBool (consistentb ss)
+                               | None => err (str "BadShape")
+                               end
+                | None => err (str "BadShape")
+                end
+  | Err k => err k
+  end.
+
+Definition reader_session (text1 text2 : pstr) : val :=
+  match parse_lines text1, parse_lines text2 with
+  | Ok l1, Ok l2 =>
+      match decode_all l1, decode_all l2 with
+      | Some (_, ss1), Some (_, ss2) =>
+          VBool (consistentb ss1 && match session_from ss1 ss2 with Some _ => true | None => false end)
+      | _, _ => err (str "BadShape")
+      end
+  | Err k, _ => err k
+  | _, Err k => err k
+  end.
+
 Definition as_slots (v : val) : option cfg :=
   match v with
   | VList [d; s; c; m; r] =>
@@ -155,5 +185,12 @@ Definition dispatch_reader (op : pstr) (a : val) : option val :=
     | _ => None end))
   else if op_is op "reader_consistent" then Some (or_bad (
     match a with VList [text] => do text <- as_str text; Some (reader_consistent text)
+    | _ => None end))
+  else if op_is op "reader_kept_consistent" then Some (or_bad (
+    match a with VList [text; ignore] =>
+      do text <- as_str text; do ignore <- as_ignore ignore; Some (reader_kept_consistent text ignore)
+    | _ => None end))
+  else if op_is op "reader_session" then Some (or_bad (
+    match a with VList [t1; t2] => do t1 <- as_str t1; do t2 <- as_str t2; Some (reader_session t1 t2)
     | _ => None end))
   else None.
